@@ -142,7 +142,7 @@ def run(ctx):
                         ev.events.append((name,))
                         return None
                 return super().method(ev, base, name, args, kwargs, node)
-        gfa = Abs(gfacls, label="gfa")
+        gfa = Abs(gfacls, label="gfa", vlevel=1)
         ln.attrs["_gfa"] = gfa
         value = newname if newname != "*" else Abs(PHc, label="*",
                                                    __bool__=False)
@@ -184,7 +184,7 @@ def run(ctx):
         data = {"name": "A"} if stored else {}
         ln = Abs(seg1, label="line", vlevel=vl, _data=data, _datatype={},
                  _virtual=False, virtual=False,
-                 _gfa=Abs(gfacls, label="gfa"))
+                 _gfa=Abs(gfacls, label="gfa", vlevel=vl))
 
         class AH(SeqHooks):
             def before_inline(self, ev, func, args, kwargs):
